@@ -229,9 +229,15 @@ func (r *NgReader) readOption() error {
 			}
 		}
 		r.currentBlock.length -= uint32(length)
+	} else {
+		// a zero-length option has an empty value (not the bytes of the previous option)
+		r.currentOption.value = r.currentOption.value[:0]
 	}
 	return nil
 }
+
+// errNgOptionTooShort is returned for an option whose value is shorter than the fixed-size type it has to hold.
+var errNgOptionTooShort = errors.New("pcapng: option value is shorter than its type requires")
 
 // readSectionHeader parses the full section header and implements section skipping in case of version mismatch
 // if needed, the first interface is read
@@ -398,12 +404,21 @@ OPTIONS:
 			intf.Description = string(r.currentOption.value)
 		case ngOptionCodeInterfaceFilter:
 			// ignore filter type (first byte) since it is not specified
+			if len(r.currentOption.value) < 1 {
+				return errNgOptionTooShort
+			}
 			intf.Filter = string(r.currentOption.value[1:])
 		case ngOptionCodeInterfaceOS:
 			intf.OS = string(r.currentOption.value)
 		case ngOptionCodeInterfaceTimestampOffset:
+			if len(r.currentOption.value) < 8 {
+				return errNgOptionTooShort
+			}
 			intf.TimestampOffset = r.getUint64(r.currentOption.value[:8])
 		case ngOptionCodeInterfaceTimestampResolution:
+			if len(r.currentOption.value) < 1 {
+				return errNgOptionTooShort
+			}
 			intf.TimestampResolution = NgResolution(r.currentOption.value[0])
 		}
 	}
@@ -472,14 +487,26 @@ OPTIONS:
 		case ngOptionCodeComment:
 			stats.Comment = string(r.currentOption.value)
 		case ngOptionCodeInterfaceStatisticsStartTime:
+			if len(r.currentOption.value) < 8 {
+				return errNgOptionTooShort
+			}
 			ts = uint64(r.getUint32(r.currentOption.value[:4]))<<32 | uint64(r.getUint32(r.currentOption.value[4:8]))
 			stats.StartTime = time.Unix(r.convertTime(ifaceID, ts)).UTC()
 		case ngOptionCodeInterfaceStatisticsEndTime:
+			if len(r.currentOption.value) < 8 {
+				return errNgOptionTooShort
+			}
 			ts = uint64(r.getUint32(r.currentOption.value[:4]))<<32 | uint64(r.getUint32(r.currentOption.value[4:8]))
 			stats.EndTime = time.Unix(r.convertTime(ifaceID, ts)).UTC()
 		case ngOptionCodeInterfaceStatisticsInterfaceReceived:
+			if len(r.currentOption.value) < 8 {
+				return errNgOptionTooShort
+			}
 			stats.PacketsReceived = r.getUint64(r.currentOption.value[:8])
 		case ngOptionCodeInterfaceStatisticsInterfaceDropped:
+			if len(r.currentOption.value) < 8 {
+				return errNgOptionTooShort
+			}
 			stats.PacketsDropped = r.getUint64(r.currentOption.value[:8])
 		}
 	}
@@ -597,10 +624,16 @@ OPTIONS:
 		case ngOptionCodeComment:
 			opts.Comments = append(opts.Comments, string(r.currentOption.value))
 		case ngOptionCodeEpbFlags:
+			if len(r.currentOption.value) < 4 {
+				return opts, errNgOptionTooShort
+			}
 			flags := NgEpbFlags{}
 			flags.FromUint32(binary.LittleEndian.Uint32(r.currentOption.value))
 			opts.Flags = &flags
 		case ngOptionCodeEpbHash:
+			if len(r.currentOption.value) < 1 {
+				return opts, errNgOptionTooShort
+			}
 			v := make([]byte, len(r.currentOption.value)-1)
 			copy(v, r.currentOption.value[1:])
 			opts.Hashes = append(opts.Hashes, NgEpbHash{
@@ -608,15 +641,27 @@ OPTIONS:
 				Hash:      v,
 			})
 		case ngOptionCodeEpbDropCount:
+			if len(r.currentOption.value) < 8 {
+				return opts, errNgOptionTooShort
+			}
 			v := binary.LittleEndian.Uint64(r.currentOption.value)
 			opts.DropCount = &v
 		case ngOptionCodeEpbPacketID:
+			if len(r.currentOption.value) < 8 {
+				return opts, errNgOptionTooShort
+			}
 			v := binary.LittleEndian.Uint64(r.currentOption.value)
 			opts.PacketID = &v
 		case ngOptionCodeEpbQueue:
+			if len(r.currentOption.value) < 4 {
+				return opts, errNgOptionTooShort
+			}
 			v := binary.LittleEndian.Uint32(r.currentOption.value)
 			opts.Queue = &v
 		case ngOptionCodeEpbVerdict:
+			if len(r.currentOption.value) < 1 {
+				return opts, errNgOptionTooShort
+			}
 			v := make([]byte, len(r.currentOption.value)-1)
 			copy(v, r.currentOption.value[1:])
 			opts.Verdicts = append(opts.Verdicts, NgEpbVerdict{
